@@ -111,6 +111,11 @@ void harness (void)
 #if VERIF_OP == 1   /* ------------------------------------------------ bus_service_add_owner */
   dbus_uint32_t flags = nondet_uint ();
   __CPROVER_assume (!(n >= 1 && who == 0));      /* requires: requester is not the current primary (C04.acquire_table establishes it) */
+#ifdef VERIF_STRICT
+  /* call context established by C04.acquire_table (precondition of its add_owner stub): with DO_NOT_QUEUE the requester is
+   * only enqueued when it is about to replace the primary */
+  __CPROVER_assume (n == 0 || !(flags & REF_FLAG_DO_NOT_QUEUE) || ((flags & REF_FLAG_REPLACE_EXISTING) && pre_o[0].allow_replacement));
+#endif
   ok = bus_service_add_owner (&svc, CONN (who), flags, TX, &err);
   snapshot (&post); in_flags = flags; out_n = post.n; out_at0 = post.e[0].conn; out_at1 = post.e[1].conn; out_at2 = post.e[2].conn;
   ref_entry x; x.conn = who; x.allow = (flags & REF_FLAG_ALLOW_REPLACEMENT) != 0; x.dnq = (flags & REF_FLAG_DO_NOT_QUEUE) != 0;
